@@ -3,12 +3,14 @@ import Driver.StorageOps
 import Driver.LocationOps
 import Driver.StageOps
 import Driver.DamageOps
+import Driver.SerialOps
 open Lean Ts.Drv
 
 namespace Ts.Drv
 
 /-- All registered op handlers; first match wins. -/
 def handlers : List Handler := [
+  SerialOps.handle,
   StorageOps.handle,
   LocationOps.handle,
   StageOps.handle,
